@@ -56,11 +56,7 @@ def run(ctx):
     for k, s in enumerate(E.emitted(res, "@S@")):
         nseq += 1
         msgs = PRE[s["r"]] + list(s["h"])
-        if ctx.quick:
-            add(msgs, "stub" if k % 2 else "sm", "whole", "seq")
-        else:
-            add(msgs, "stub", FRAGS[k % 3], "seq")
-            add(msgs, "sm", FRAGS[(k + 1) % 3], "seq")
+        add(msgs, "stub" if k % 2 else "sm", "whole" if ctx.quick else FRAGS[k % 3], "seq")
     ctx.log("%s: %d maximal sequences" % (cfg, nseq))
 
     # 3. every message type id x generic payload x role
@@ -114,6 +110,7 @@ def run(ctx):
         E.report(ctx, sig, "rejected %s of scenario %s: %s" % (ev["ev"], json.dumps(sc)[:400], json.dumps(ev)[:400]),
                  {"scenario": sc, "event": ev, "trace": r["trace"][:40]})
     ctx.assumptions += ["independent RTMP client encoder harness/proj/rtmpwire.go (handshake digests, chunking, AMF0 shapes)",
-                        "child processes run with a 3 GiB address-space limit (a server with less than 4 GiB of free memory)",
+                        "a panic of the session goroutine is recovered by the driver and recorded as the observation 'panic' "
+                        "(lal recovers nowhere: in production it ends the process); fatal errors are seen as a dead child",
                         "open/closed is observed when lal's reader is parked in Read again or lal has closed the connection",
                         "payload classes with malformed media content run against the stub observer only (pipeline = C05)"]
